@@ -11,6 +11,10 @@ Require Import Naga.Base.Bits32 Naga.Base.F32 Naga.IR.Syntax Naga.IR.Values.
 Open Scope string_scope.
 Open Scope Z_scope.
 
+(* data-dependent numbers are never turned into unary nats beyond BIG *)
+Definition BIG : Z := 1048575.
+Definition safe_nat (z : Z) : nat := Z.to_nat (Z.min z BIG).
+
 Definition nth_res {A} (msg : string) (l : list A) (n : nat) : result A :=
   match nth_error l n with Some x => Done x | None => Fail msg end.
 
@@ -41,7 +45,9 @@ Fixpoint zero_inner (fuel : nat) (types : list ty) (t : type_inner) : result val
     | TAtomic s => zero_scalar s
     | TVector n s => z <~ zero_scalar s ;; Done (VVec (repeat z (Z.to_nat n)))
     | TMatrix c r s => z <~ zero_scalar s ;; Done (VMat (repeat (VVec (repeat z (Z.to_nat r))) (Z.to_nat c)))
-    | TArray b (Some n) _ => z <~ zero_h b ;; Done (VArr (repeat z (Z.to_nat n)))
+    | TArray b (Some n) _ =>
+      if BIG <? n then Fail "zero: array too large to model"
+      else z <~ zero_h b ;; Done (VArr (repeat z (Z.to_nat n)))
     | TArray _ None _ => Fail "zero: runtime-sized array"
     | TStruct ms _ => vs <~ rmap (fun m => zero_h (m_type m)) ms ;; Done (VStruct vs)
     | _ => Fail "zero: type not modelled"
@@ -80,8 +86,8 @@ Fixpoint store_path (v : value) (p : list nat) (nv : value) : result value :=
 
 Definition index_of_value (v : value) : result nat :=
   match v with
-  | VI32 z => if z <? H32 then Done (Z.to_nat z) else Fail "negative index"
-  | VU32 z => Done (Z.to_nat z)
+  | VI32 z => if z <? H32 then Done (safe_nat z) else Fail "negative index"
+  | VU32 z => Done (safe_nat z)
   | _ => Fail "index: not an integer"
   end.
 
@@ -329,11 +335,11 @@ Definition eval_expr (e : expr) : result value :=
   | EZeroValue t => zero_value (m_types m) t
   | ECompose t cs => vs <~ rmap get cs ;; compose (m_types m) t vs
   | EAccess b i => bv <~ get b ;; iv <~ get i ;; n <~ index_of_value iv ;; access bv n
-  | EAccessIndex b i => bv <~ get b ;; access bv (Z.to_nat i)
-  | ESplat n v => x <~ get v ;; Done (VVec (repeat x (Z.to_nat n)))
+  | EAccessIndex b i => bv <~ get b ;; access bv (safe_nat i)
+  | ESplat n v => x <~ get v ;; Done (VVec (repeat x (safe_nat (Z.min n 4))))
   | ESwizzle n v pat =>
     x <~ get v ;; l <~ vec_elems x ;;
-    vs <~ rmap (fun i => nth_res "swizzle component" l (Z.to_nat i)) (firstn (Z.to_nat n) pat) ;; Done (VVec vs)
+    vs <~ rmap (fun i => nth_res "swizzle component" l (safe_nat i)) (firstn (safe_nat n) pat) ;; Done (VVec vs)
   | EFunctionArgument i => nth_res "function argument" args i
   | EGlobalVariable g =>
     gv <~ nth_res "global handle" (m_globals m) g ;;
